@@ -792,7 +792,8 @@ def t_wrapper(E):
         # ---- C05: no marker outlives its computation; waiters are woken
         if my.get('ev') is not None:
             e_ = my['ev']
-            E.oblige(Q + '/ensures.own_event_set_on_every_exit[%s]' % kind, s.ev_set[e_], props={'C05'})
+            E.oblige(Q + '/ensures.own_event_set_on_every_exit[%s]' % kind, s.ev_set[e_], props={'C05', 'C06'},
+                     detail='waiters of a computation that ended (also one whose marker was taken over) must be woken, not left to the 60 s safety timeout')
             E.oblige(Q + '/ensures.own_marker_removed_on_every_exit[%s]' % kind,
                      z3.Not(z3.And(s.m_has, s.m_ev == e_)), props={'C05', 'C01'})
         E.oblige(Q + '/ensures.lock_not_held_at_exit', z3.Not(mine_lock(s, me)), props={'C05'})
